@@ -1,26 +1,17 @@
 import PybropsModel.J
-import PybropsModel.Model.SelLimit
+import PybropsModel.Model.SelLimitSpec
 open Lean
 
 /-!
 Driver ops of C10.
   c10.limits  population + additive model ↦ afreq, usl, lsl (with and without location), gebv
   c10.mate    one mating protocol with the draws the generator returned ↦ progeny genotypes
-  c10.select  select_taxa ↦ selected parents
+  c10.select  select_taxa / remove_taxa (in-place culling), phased (`G`) or unphased (`Z`) ↦ surviving parents
   c10.spec    a closed breeding history (raw genotypes of every generation) + the IMPLEMENTATION's
               limits and breeding values ↦ verdict of the property's decidable Spec
 -/
 namespace Drv.C10
-open Genotype SelLimit
-
-/-- a population as the driver receives it: phased (`G`), unphased (`Z`, `ploidy`), or run-length
-    compressed (`rows` = distinct dosage rows, `mult` = how many taxa carry each; very large populations) -/
-structure PopIn where
-  ploidy : Nat
-  nt : Nat
-  Z : UMat                 -- dosage rows (projection when phased; distinct rows when compressed)
-  G : Option PMat
-  mult : Option (List Nat)
+open Genotype SelLimit SelLimitSpec
 
 def decPop (nv : Nat) (j : Json) : J.R PopIn := do
   let nt ← J.field j "nt" J.nat
@@ -57,15 +48,11 @@ def opLimits : J.Op := fun j => do
   let beta ← J.field j "beta" (J.mat J.rat)
   let P ← J.field j "pop" (decPop nv)
   let p := popFreq nv P
-  let loc := (List.range ntr).map (location beta)
-  let us := usl P.ploidy nv ntr U p
-  let ls := lsl P.ploidy nv ntr U p
-  let gv := gebv nv ntr U P.Z
-  let addLoc (v : List Rat) : List Rat := List.zipWith (· + ·) v loc
+  let o := modelObs nv ntr U beta P.ploidy P.Z p
   let valid : Bool := popValid nv P
-  pure <| J.obj [("afreq", J.ofList J.ofRat p), ("usl", J.ofList J.ofRat us), ("lsl", J.ofList J.ofRat ls),
-    ("usl_un", J.ofList J.ofRat (addLoc us)), ("lsl_un", J.ofList J.ofRat (addLoc ls)),
-    ("gebv_raw", J.ofMat J.ofRat gv), ("gebv_un", J.ofMat J.ofRat (gv.map addLoc)),
+  pure <| J.obj [("afreq", J.ofList J.ofRat p), ("usl", J.ofList J.ofRat o.usl), ("lsl", J.ofList J.ofRat o.lsl),
+    ("usl_un", J.ofList J.ofRat o.uslUn), ("lsl_un", J.ofList J.ofRat o.lslUn),
+    ("gebv_raw", J.ofMat J.ofRat o.gebvRaw), ("gebv_un", J.ofMat J.ofRat o.gebvUn),
     ("valid", J.ofBool valid)]
 
 def decProtocol (s : String) : J.R Protocol :=
@@ -89,79 +76,20 @@ def opMate : J.Op := fun j => do
 
 /-- {"op":"c10.select","G","idx"}: `select_taxa` -/
 def opSelect : J.Op := fun j => do
-  let G ← J.field j "G" (J.list (J.mat J.int))
   let idx ← J.field j "idx" (J.list J.nat)
-  pure <| J.ofList (J.ofMat J.ofInt) (selectTaxa idx G)
+  let remove ← J.fieldD j "remove" J.bool false
+  match ← J.fieldOpt j "G" (J.list (J.mat J.int)) with
+  | some G => pure <| J.ofList (J.ofMat J.ofInt) (if remove then removeTaxa idx G else selectTaxa idx G)
+  | none =>
+    let Z ← J.field j "Z" (J.mat J.int)
+    pure <| J.ofMat J.ofInt (if remove then removeTaxaU idx Z else selectTaxaU idx Z)
 
 /-! ## Spec -/
 
-structure ObsGen where
-  usl : List Rat
-  lsl : List Rat
-  uslUn : List Rat
-  lslUn : List Rat
-  gebvRaw : List (List Rat)
-  gebvUn : List (List Rat)
-
-def decObs (j : Json) : J.R ObsGen := do
+def decObs (j : Json) : J.R (ObsGen Rat) := do
   pure { usl := ← J.field j "usl" (J.list J.rat), lsl := ← J.field j "lsl" (J.list J.rat),
          uslUn := ← J.field j "usl_un" (J.list J.rat), lslUn := ← J.field j "lsl_un" (J.list J.rat),
          gebvRaw := ← J.field j "gebv_raw" (J.mat J.rat), gebvUn := ← J.field j "gebv_un" (J.mat J.rat) }
-
-def absQ (q : Rat) : Rat := if q < 0 then -q else q
-def maxQ (a b : Rat) : Rat := if a < b then b else a
-/-- `a ≤ b` up to the float tolerance -/
-def leTol (tol a b : Rat) : Bool := decide (a ≤ b + tol * maxQ 1 (maxQ (absQ a) (absQ b)))
-def eqTol (tol a b : Rat) : Bool := leTol tol a b && leTol tol b a
-
-/-- every reported value of every member lies between the reported limits -/
-def bracketB (tol : Rat) (lo hi : List Rat) (vals : List (List Rat)) : Bool :=
-  vals.all (fun row => row.length == lo.length && row.length == hi.length &&
-    (List.zip row (List.zip lo hi)).all (fun x => leTol tol x.2.1 x.1 && leTol tol x.1 x.2.2))
-
-/-- the population is fixed at every locus (raw calls) -/
-def allFixedB (nv : Nat) (P : PopIn) : Bool :=
-  (List.range nv).all (fun j =>
-    P.Z.all (fun r => entry r j == 0) || P.Z.all (fun r => entry r j == (P.ploidy : Int)))
-
-def collapseB (tol : Rat) (o : ObsGen) : Bool :=
-  (List.zip o.usl o.lsl).all (fun x => eqTol tol x.1 x.2) &&
-  (List.zip o.uslUn o.lslUn).all (fun x => eqTol tol x.1 x.2) &&
-  o.gebvRaw.all (fun row => (List.zip row o.usl).all (fun x => eqTol tol x.1 x.2)) &&
-  o.gebvUn.all (fun row => (List.zip row o.uslUn).all (fun x => eqTol tol x.1 x.2))
-
-def vecLe (tol : Rat) (a b : List Rat) : Bool :=
-  a.length == b.length && (List.zip a b).all (fun x => leTol tol x.1 x.2)
-
-def specHistory (nv ntr : Nat) (tol : Rat) (pops : List PopIn) (obs : List ObsGen) : List String :=
-  let n := pops.length
-  if obs.length != n then ["obs/pops length"] else
-  let gens := List.zip (List.range n) (List.zip pops obs)
-  let shape := gens.filterMap (fun g =>
-    let o := g.2.2
-    if o.usl.length == ntr && o.lsl.length == ntr && o.uslUn.length == ntr && o.lslUn.length == ntr
-       && o.gebvRaw.length == g.2.1.Z.length && o.gebvUn.length == g.2.1.Z.length then none
-    else some s!"gen{g.1}:shape")
-  let own := gens.flatMap (fun g =>
-    let o := g.2.2
-    (if bracketB tol o.lsl o.usl o.gebvRaw then [] else [s!"gen{g.1}:bracket(lsl<=gebv<=usl)"]) ++
-    (if bracketB tol o.lslUn o.uslUn o.gebvUn then [] else [s!"gen{g.1}:bracket(unscaled)"]) ++
-    (if !allFixedB nv g.2.1 || collapseB tol o then [] else [s!"gen{g.1}:fixed population: usl=lsl=gebv"]))
-  let pairs := gens.flatMap (fun a => gens.filterMap (fun b => if a.1 < b.1 then some (a, b) else none))
-  let cross := pairs.flatMap (fun ab =>
-    let a := ab.1; let b := ab.2
-    let oa := a.2.2; let ob := b.2.2
-    (if vecLe tol ob.usl oa.usl && vecLe tol ob.uslUn oa.uslUn then [] else [s!"usl increases gen{a.1}->gen{b.1}"]) ++
-    (if vecLe tol oa.lsl ob.lsl && vecLe tol oa.lslUn ob.lslUn then [] else [s!"lsl decreases gen{a.1}->gen{b.1}"]) ++
-    (if bracketB tol oa.lsl oa.usl ob.gebvRaw && bracketB tol oa.lslUn oa.uslUn ob.gebvUn then []
-     else [s!"descendant of gen{b.1} outside limits of gen{a.1}"]))
-  let steps := (List.zip gens gens.tail).filterMap (fun ab =>
-    match ab.1.2.1.G, ab.2.2.1.G with
-    | some Ga, some Gb =>
-      if closedStepB nv ⟨ab.1.2.1.nt, Ga⟩ ⟨ab.2.2.1.nt, Gb⟩ then none
-      else some s!"allele absent in gen{ab.1.1} present in gen{ab.2.1}"
-    | _, _ => some s!"gen{ab.1.1}->gen{ab.2.1}: history needs phased genotypes")
-  shape ++ own ++ cross ++ steps
 
 /-- {"op":"c10.spec","nv","ntrait","tol","pops":[pop..],"obs":[{..}..]} -/
 def opSpec : J.Op := fun j => do
